@@ -139,6 +139,26 @@ class Ref:
         self.root, self.proj = root, proj
 
 
+def bv_binop(op, a, b):
+    if isinstance(a, BV) and isinstance(b, Int):
+        if op in ('Shr', 'ShrUnchecked'):
+            return a.shr(b.v)
+        if op in ('Shl', 'ShlUnchecked'):
+            return a.shl(b.v)
+        if op == 'BitAnd':
+            return a.and_const(b.v)
+        if op == 'BitOr':
+            return a.or_(bv_of_int(b.v, len(a.e)))
+    if isinstance(a, Int) and isinstance(b, BV):
+        if op == 'BitAnd':
+            return b.and_const(a.v)
+        if op == 'BitOr':
+            return b.or_(bv_of_int(a.v, len(b.e)))
+    if isinstance(a, BV) and isinstance(b, BV) and op == 'BitOr':
+        return a.or_(b)
+    return None
+
+
 def kbits_binop(op, a, b):
     """Known-bits transfer for BitAnd / BitOr / Eq / Ne with a constant."""
     if isinstance(a, Int) and isinstance(b, KBits):
@@ -165,6 +185,174 @@ def kbits_binop(op, a, b):
             return Int(1 if op == 'Eq' else 0)
         return None
     return None
+
+
+class BitVal:
+    """A symbolic scalar bit (boolean): variable index n."""
+    __slots__ = ('n',)
+
+    def __init__(self, n):
+        self.n = n
+
+    def __repr__(self):
+        return 'bit%d' % self.n
+
+    def __eq__(self, o):
+        return isinstance(o, BitVal) and o.n == self.n
+
+    def __hash__(self):
+        return hash(('bit', self.n))
+
+
+class BV:
+    """Bit-provenance vector of a machine word (LSB first): entries 0, 1, BitVal or None."""
+    __slots__ = ('e',)
+
+    def __init__(self, e):
+        self.e = list(e)
+
+    def __repr__(self):
+        return 'BV(%s)' % ''.join('0' if x == 0 else '1' if x == 1 else '?' if x is None else 'b' for x in reversed(self.e))
+
+    def __eq__(self, o):
+        return isinstance(o, BV) and self.e == o.e
+
+    def shr(self, k):
+        return BV(self.e[k:] + [0] * min(k, len(self.e)))
+
+    def shl(self, k):
+        return BV(([0] * k + self.e)[:len(self.e)])
+
+    def and_const(self, c):
+        return BV([x if (c >> i) & 1 else 0 for i, x in enumerate(self.e)])
+
+    def or_(self, o):
+        out = []
+        for x, y in zip(self.e, o.e):
+            if x == 0:
+                out.append(y)
+            elif y == 0:
+                out.append(x)
+            elif x == 1 or y == 1:
+                out.append(1)
+            else:
+                out.append(None)
+        return BV(out)
+
+    def as_int(self):
+        if all(x in (0, 1) for x in self.e):
+            return sum(x << i for i, x in enumerate(self.e))
+        return None
+
+
+def bv_of_int(v, width=64):
+    return BV([(v >> i) & 1 for i in range(width)])
+
+
+def bv_lookup(table, idx):
+    """table[idx] for a table of linear forms that is bit-linear (T[i] = sum_{b in i} T[2^b],
+    T[0] = 0) and a symbolic index: sum_b idx_b * T[2^b]."""
+    items = table.items
+    n = len(items)
+    if n == 0 or n & (n - 1):
+        return TOP
+    w = n.bit_length() - 1
+    if not all(isinstance(x, Lin) for x in items):
+        return TOP
+    if items[0].t:
+        return TOP
+    for i in range(n):
+        s = Lin()
+        for b in range(w):
+            if (i >> b) & 1:
+                s = s.add(items[1 << b])
+        if not (s == items[i]):
+            return TOP
+    if any(x is None for x in idx.e) or any(x != 0 for x in idx.e[w:]):
+        return TOP
+    out = Lin()
+    for b in range(w):
+        x = idx.e[b]
+        if x == 0:
+            continue
+        if x == 1:
+            out = out.add(items[1 << b])
+        else:
+            m = lin_times_bit(items[1 << b], x)
+            if m is None:
+                return TOP
+            out = out.add(m)
+    return out
+
+
+def val_eq(a, b):
+    if isinstance(a, Agg) and isinstance(b, Agg):
+        return len(a.items) == len(b.items) and all(val_eq(x, y) for x, y in zip(a.items, b.items))
+    if isinstance(a, (RangeIt,)) and isinstance(b, RangeIt):
+        return (a.cur, a.end) == (b.cur, b.end)
+    if type(a) is not type(b):
+        return False
+    try:
+        return a == b
+    except Exception:
+        return a is b
+
+
+def lin_times_bit(l, bit):
+    out = {}
+    for a, k in l.t.items():
+        if '*b' in a:
+            return None
+        out['%s*b%d' % (a, bit.n)] = k
+    return Lin(out)
+
+
+def merge_on_bit(bit, s0, s1):
+    out = {}
+    for root in set(s0) | set(s1):
+        a, b = s0.get(root, TOP), s1.get(root, TOP)
+        out[root] = merge_val(bit, a, b)
+    return out
+
+
+def merge_val(bit, a, b):
+    if val_eq(a, b):
+        return a
+    if isinstance(a, Lin) and isinstance(b, Lin):
+        d = lin_times_bit(b.add(a.neg()), bit)
+        if d is not None:
+            return a.add(d)
+        return TOP
+    if isinstance(a, Agg) and isinstance(b, Agg) and len(a.items) == len(b.items):
+        return Agg([merge_val(bit, x, y) for x, y in zip(a.items, b.items)], a.kind)
+    return TOP
+
+
+def _ipdom(body, bb):
+    """Immediate post-dominator of block bb on the non-unwind CFG."""
+    if getattr(body, '_pdom_cache', None) is None:
+        n = body.n
+        exit_ = n
+        succ = [list(s) for s in body.succ] + [[]]
+        for i in range(n):
+            if not succ[i]:
+                succ[i] = [exit_]
+        pred = [[] for _ in range(n + 1)]
+        for i, ss in enumerate(succ):
+            for x in ss:
+                pred[x].append(i)
+        from facts import _dominators
+        body._pdom_cache = _dominators(n + 1, pred, succ, [exit_])
+    pd = body._pdom_cache
+    cands = pd[bb] - {bb}
+    # immediate = the candidate post-dominated by all others... i.e. the one whose pdom set is largest
+    best = None
+    for c in cands:
+        if c == body.n:
+            continue
+        if best is None or len(pd[c]) > len(pd[best]):
+            best = c
+    return best
 
 
 class Budget(Exception):
@@ -294,6 +482,13 @@ class Frame:
                     iv = self.store.get(e[1])
                     if isinstance(iv, Int) and iv.v < len(v.items):
                         v = v.items[iv.v]
+                        continue
+                    if isinstance(iv, BV):
+                        ci = iv.as_int()
+                        if ci is not None and ci < len(v.items):
+                            v = v.items[ci]
+                            continue
+                        v = bv_lookup(v, iv)
                         continue
                     return TOP
             if e[0] == 'deref':
@@ -459,9 +654,12 @@ class Interp:
         nf.store = dict(fr.store)   # values are immutable (rebuilt on update)
         return nf
 
-    def _run_path(self, fr, bb, pth, work, results):
+    def _run_path(self, fr, bb, pth, work, results, stop_at=None):
         body = fr.body
         while True:
+            if stop_at is not None and bb == stop_at:
+                results.append((pth, ('stopped', fr), {}))
+                return
             self.steps += 1
             if self.steps > self.max_steps:
                 raise Budget('step budget exceeded in %s' % body.path)
@@ -514,6 +712,25 @@ class Interp:
                     label = o.label
                 elif isinstance(dv, tuple) and dv[0] == 'bool':
                     label = dv[1]
+                if decided is None and isinstance(dv, BitVal):
+                    # if-conversion on a symbolic scalar bit: run both arms to the join point and merge
+                    join = _ipdom(body, bb)
+                    if join is None:
+                        raise NotDerivable('branch on a scalar bit without a join point', t.get('span'))
+                    arms = {}
+                    for val, tgt in ((0, [b2 for v, b2 in t['targets'] if v == 0]), (1, [t['otherwise']])):
+                        if not tgt:
+                            raise NotDerivable('unexpected switch shape on a scalar bit', t.get('span'))
+                        nf = self._clone_frame(fr)
+                        sub_res, sub_work = [], []
+                        self._run_path(nf, tgt[0], Path(), sub_work, sub_res, stop_at=join)
+                        if sub_work or len(sub_res) != 1 or not (isinstance(sub_res[0][1], tuple) and sub_res[0][1][0] == 'stopped'):
+                            raise NotDerivable('an arm of a branch on a scalar bit forks or leaves the function', t.get('span'))
+                        arms[val] = sub_res[0][1][1]
+                        pth.events.extend(sub_res[0][0].events)
+                    fr.store = merge_on_bit(dv, arms[0].store, arms[1].store)
+                    bb = join
+                    continue
                 if decided is not None:
                     tgt = t['otherwise']
                     for v, b2 in t['targets']:
@@ -643,6 +860,10 @@ class Interp:
             if op == 'Eq' and isinstance(a, tuple) and a and a[0] == 'bool' and isinstance(b, Int):
                 fr.storev(dst, a if b.v == 1 else ('bool', ('not', a[1])))
                 return
+            bvr = bv_binop(op, a, b)
+            if bvr is not None:
+                fr.storev(dst, bvr)
+                return
             kb = kbits_binop(op, a, b)
             fr.storev(dst, kb if kb is not None else TOP)
         elif k == 'unop':
@@ -655,7 +876,7 @@ class Interp:
                 fr.storev(dst, TOP)
         elif k == 'cast':
             a = fr.operand(rv['op'])
-            if isinstance(a, Int) and rv['kind'] == 'IntToInt':
+            if isinstance(a, (Int, BV)) and rv['kind'] == 'IntToInt':
                 fr.storev(dst, a)
             elif rv['kind'].startswith('PointerCoercion'):
                 fr.storev(dst, a)
@@ -690,7 +911,7 @@ class Interp:
                 return
 
         # ---- plumbing that is value-transparent
-        if (d.endswith('IntoIterator>::into_iter') or d.endswith('IntoIterator::into_iter')) and not res.startswith('core::slice::iter::'):
+        if (d.endswith('IntoIterator>::into_iter') or d.endswith('IntoIterator::into_iter')) and not res.startswith('core::slice::iter::') and not res.startswith('std::array::<impl std::iter::IntoIterator for &'):
             fr.storev(dest, fr.operand(args[0]))
             return
         if 'Iterator' in d and d.endswith('::next') and ('Range' in res):
@@ -742,7 +963,7 @@ class Interp:
                         return
             fr.storev(dest, TOP)
             return
-        if res.startswith('core::slice::iter::<impl std::iter::IntoIterator for &') and name == 'into_iter':
+        if (res.startswith('core::slice::iter::<impl std::iter::IntoIterator for &') or res.startswith('std::array::<impl std::iter::IntoIterator for &')) and name == 'into_iter':
             base = self.value_of_ref(fr, args[0])
             if isinstance(base, Agg):
                 fr.storev(dest, SliceIt(base.items, 0))
